@@ -306,25 +306,39 @@ def rdPts : Nat → Bytes → Option (List (Pt UInt64) × Bytes)
     | some (p, r) => (match rdPts n r with | some (ps, r') => some (p :: ps, r') | none => none)
     | none => none
 
-/-- `newShape(shapetype)` + `shape.read(er)` for the 2-D types (`none`: unsupported type or short read, which
-`Next` turns into an error and `false`). Counts are read as unsigned (a written file has them below 2^31). -/
+/-- `binary.Read` of a fixed number of bytes: `none` on a short read -/
+def splitAt? (n : Nat) (b : Bytes) : Option (Bytes × Bytes) :=
+  if b.length < n then none else some (b.take n, b.drop n)
+
+/-- `newShape(shapetype)` + `shape.read(er)` for the 2-D types: the sequence of `binary.Read` calls (`none`:
+unsupported type or short read, which `Next` turns into an error and `false`). Counts are read as unsigned (a
+written file has them below 2^31). -/
 def parseShape (typ : Nat) (b : Bytes) : Option (Shape UInt64) :=
   if typ = 0 then some .null
   else if typ = 1 then (rdPt b).map fun x => .point x.1
   else if typ = 3 ∨ typ = 5 then
-    if b.length < 40 then none else
-    let np := rdLe ((b.drop 32).take 4)
-    let n := rdLe ((b.drop 36).take 4)
-    match rdU32s np (b.drop 40) with
+    match splitAt? 32 b with                    -- Box
     | none => none
-    | some (parts, r) =>
-      match rdPts n r with
+    | some (_, r0) =>
+      match splitAt? 4 r0 with                  -- NumParts
       | none => none
-      | some (pts, _) => some (if typ = 3 then .polyLine parts pts else .polygon parts pts)
+      | some (np, r1) =>
+        match splitAt? 4 r1 with                -- NumPoints
+        | none => none
+        | some (n, r2) =>
+          match rdU32s (rdLe np) r2 with        -- Parts
+          | none => none
+          | some (parts, r3) =>
+            match rdPts (rdLe n) r3 with        -- Points
+            | none => none
+            | some (pts, _) => some (if typ = 3 then .polyLine parts pts else .polygon parts pts)
   else if typ = 8 then
-    if b.length < 36 then none else
-    let n := rdLe ((b.drop 32).take 4)
-    (rdPts n (b.drop 36)).map fun x => .multiPoint x.1
+    match splitAt? 32 b with
+    | none => none
+    | some (_, r0) =>
+      match splitAt? 4 r0 with
+      | none => none
+      | some (n, r1) => (rdPts (rdLe n) r1).map fun x => .multiPoint x.1
   else none
 
 /-- repeated `Reader.Next()` from file position `cur` until `cur >= filelength`: the shapes in file order.
@@ -333,16 +347,21 @@ Each step reads number, size (big endian) and the record's own shape type, the s
 def readShapes (data : Bytes) (cur : Nat) : Option (List (Shape UInt64)) :=
   if _h : cur ≥ data.length then some []
   else
-    let hd := data.drop cur
-    if hd.length < 12 then none else
-    let size := rdBe ((hd.drop 4).take 4)
-    let typ := rdLe ((hd.drop 8).take 4)
-    match parseShape typ (hd.drop 12) with
+    match splitAt? 4 (data.drop cur) with       -- record number
     | none => none
-    | some s =>
-      match readShapes data (size * 2 + cur + 8) with
-      | some ss => some (s :: ss)
+    | some (_, r0) =>
+      match splitAt? 4 r0 with                  -- content length
       | none => none
+      | some (size, r1) =>
+        match splitAt? 4 r1 with                -- shape type
+        | none => none
+        | some (typ, r2) =>
+          match parseShape (rdLe typ) r2 with
+          | none => none
+          | some s =>
+            match readShapes data (rdBe size * 2 + cur + 8) with
+            | some ss => some (s :: ss)
+            | none => none
 termination_by data.length - cur
 decreasing_by omega
 
